@@ -350,6 +350,25 @@ def judge_spec(m, items, recs, spec):
             return (rec['problem'][0], i, rec['problem'][1], alphabet)
         sset, sobs = sp
         got = showset(rec['cov'])
+        if sobs == 'err assert' and rec['status'] == 'ok' and items[i][0] in ('W', 'I', 'X'):
+            # the code under test accepts an operand of another depth where the pinned code refuses.  If the
+            # operand is coarser its sky is exactly representable here, and the property then demands plain set
+            # algebra on deepest pixels; a finer operand has no exact meaning for these three operations.
+            om, OS = opnd_sky(items[i][1])
+            before = set(int(x) for x in sset.split(',')) if sset else set()
+            if om > m:
+                return ('error-contract', i, 'item %d: a finer operand (depth %d > %d) was accepted by %s'
+                        % (i, om, m, items[i][0]), alphabet)
+            fine = set()
+            for q in OS:
+                fine.update(below(q, m - om))
+            alt = {'W': before - fine, 'I': before & fine, 'X': before ^ fine}[items[i][0]]
+            if rec['cov'] != alt:
+                miss, extra = sorted(alt - rec['cov'])[:8], sorted(rec['cov'] - alt)[:8]
+                return ('covered-set', i, 'item %d: %s with an operand %d levels coarser was accepted, but the region now '
+                        'covers %d deepest pixels where set algebra on deepest pixels gives %d (missing %s, extra %s)'
+                        % (i, items[i][0], m - om, len(rec['cov']), len(alt), miss, extra), alphabet)
+            return None      # accepted and exact: not a Spec matter (the model, which refuses, differs: 'corr')
         if got != sset:
             return ('covered-set', i, 'after item %d the region covers {%s} but set algebra gives {%s}'
                     % (i, got[:200], sset[:200]), alphabet)
@@ -720,6 +739,71 @@ def file_stream(ctx, found, m, length, tmp, wide):
     ctx.count('file stream m=%d' % m, len(hs))
 
 
+def gap_stream(ctx, found, tmp):
+    """without / intersect / symmetric_difference with operands 1..3 levels coarser and 1 level finer, on a
+    region that overlaps the operand partly (the pinned code refuses all of them and stays unchanged)"""
+    rng = ctx.rng
+    hs = []
+    for m in (3, 4, 5, 6):
+        for gap in (1, 2, 3, -1):
+            om = m - gap
+            if om < 1:
+                continue
+            for k in ('W', 'I', 'X'):
+                p = rng.randrange(12 * 4 ** min(om, m))
+                if gap > 0:
+                    mine = [p * 4 ** gap + j for j in rng.sample(range(4 ** gap), min(4 ** gap, 5))] + [rng.randrange(12 * 4 ** m)]
+                    o = {'m': om, 'build': [['N', om, sorted({p, (p + 7) % (12 * 4 ** om)})]]}
+                else:
+                    mine = [p, (p + 5) % (12 * 4 ** m)]
+                    o = {'m': om, 'build': [['N', om, [4 * p + 1, 4 * p + 2]]]}
+                top = 12 * 4 ** m
+                hs.append((m, [['N', m, sorted(set(mine))], [k, o], ['G'], ['D'], ['Q', sorted(set(x % top for x in mine))[:4]]]))
+    run_histories(ctx, found, hs, tmp)
+    ctx.count('gap stream', len(hs))
+
+
+def count_preserving(rng, m):
+    """a query, then edits whose net effect keeps the NUMBER of deepest pixels but changes the members, no
+    sky_within in between, then the same query again (a membership cache keyed on identity/size would be stale)"""
+    top = 12 * 4 ** m
+    base = rng.randrange(top // 4) * 4
+    d = m if (m == 1 or rng.random() < 0.7) else m - 1
+    k = 4 ** (m - d)
+    A = sorted({(base // k + j) % (12 * 4 ** d) for j in rng.sample(range(8), rng.randint(2, 4))})   # ids at level d
+    Adeep = sorted(q for p in A for q in below(p, m - d))
+    n = rng.randint(1, min(3, len(Adeep)))
+    out_ = rng.sample(Adeep, n)                                   # leave
+    free = [q for q in range(max(0, Adeep[0] - 40), min(top, Adeep[-1] + 40)) if q not in Adeep]
+    in_ = rng.sample(free, n)                                     # join: as many as leave
+    probes = sorted(set(out_ + in_ + rng.sample(Adeep, 1)))[:6]
+    items = [['N', d, A], ['Q', probes]]
+    style = rng.randrange(4)
+    if style == 0:
+        items.append(['X', {'m': m, 'build': [['N', m, sorted(out_ + in_)]]}])          # |B| = 2|A∩B|
+    elif style == 1:
+        items += [['W', {'m': m, 'build': [['N', m, sorted(out_)]]}], ['N', m, sorted(in_)]]
+    elif style == 2:
+        items += [['N', m, sorted(in_)], ['G'], ['W', {'m': m, 'build': [['N', m, sorted(out_)]]}], ['D']]
+    else:
+        items += [['P'], ['W', {'m': m, 'build': [['N', m, sorted(out_)]]}], ['U', 1, {'m': m, 'build': [['N', m, sorted(in_)]]}]]
+    items += [['Q', probes], ['G'], ['D']]
+    return m, items
+
+
+def membership_stream(ctx, found, tmp):
+    """all sequences of length 5 over five items at depth 2 that contain query / count-preserving edit / query"""
+    m = 2
+    al = [['N', m, [1, 2]], ['X', {'m': m, 'build': [['N', m, [2, 3]]]}], ['W', {'m': m, 'build': [['N', m, [1]]]}],
+          ['N', m, [5]], ['Q', [1, 2, 3, 5]]]
+    hs = [(m, [al[i] for i in p]) for p in itertools.product(range(len(al)), repeat=5)]
+    run_histories(ctx, found, hs, tmp)
+    ctx.count('membership stream', len(hs))
+    hs = [count_preserving(ctx.rng, ctx.rng.choice([1, 2, 3, 4, 5, 6, 8, 10])) for _ in range(60 if ctx.quick else 600)]
+    run_histories(ctx, found, hs, tmp)
+    ctx.count('count-preserving edits', len(hs))
+
+
 def rand_pixels(rng, d, n, top_only=False):
     top = 12 * 4 ** d
     base = rng.randrange(top)
@@ -782,11 +866,11 @@ def rand_history(rng, raw_ok):
             rel = rng.choice([0, 0, -1, 1, 1, 2, -1])
             items.append(['U', 1 if (not raw_ok or rng.random() < 0.85) else 0, rand_operand(rng, m, rel)])
         elif x < 0.58:
-            items.append(['W', rand_operand(rng, m, rng.choice([0, 0, 0, 0, 1]))])
+            items.append(['W', rand_operand(rng, m, rng.choice([0, 0, 0, 0, 1, -2, -3]))])
         elif x < 0.64:
-            items.append(['I', rand_operand(rng, m, 0)])
+            items.append(['I', rand_operand(rng, m, rng.choice([0, 0, 0, -2, -1]))])
         elif x < 0.70:
-            items.append(['X', rand_operand(rng, m, 0)])
+            items.append(['X', rand_operand(rng, m, rng.choice([0, 0, 0, -2, 1]))])
         elif x < 0.78:
             items.append(['D'])
         elif x < 0.85:
@@ -1032,6 +1116,11 @@ CORPUS = [
     dict(m=1, items=[['N', 1, [3]], ['D'], ['Q', [3, 4]], ['G']]),
     # a query between two additions, quads completing across the query
     dict(m=3, items=[['N', 3, [0, 1, 2]], ['Q', [3]], ['N', 3, [3]], ['G'], ['D'], ['P'], ['G']]),
+    # query, count-preserving change of members, query again
+    dict(m=2, items=[['N', 2, [1, 2]], ['Q', [1, 2, 3]], ['X', {'m': 2, 'build': [['N', 2, [2, 3]]]}], ['Q', [1, 2, 3]], ['D']]),
+    # operands of other depths for without/intersect/symdiff: refused, region unchanged
+    dict(m=4, items=[['N', 4, [32, 33, 40, 47, 300]], ['W', {'m': 2, 'build': [['N', 2, [2]]]}], ['G'],
+                     ['I', {'m': 5, 'build': [['N', 5, [130]]]}], ['D']]),
     # a loaded region is a fresh object: mutate one copy, load again, observe
     dict(m=3, items=[['N', 3, [0, 1, 9]], ['S', 0], ['L', 0], ['W', {'m': 3, 'build': [['N', 3, [1]]]}], ['L', 0], ['D'],
                      ['WF', 0], ['L', 0], ['G'], ['L', 1]]),
@@ -1073,6 +1162,8 @@ def run(ctx):
             ctx.count('sampled m=%d len=5' % m, len(hs))
     # several objects and .mim files: save / load / operands loaded from files, every sequence of length 5
     file_stream(ctx, found, 2, 5, tmp, wide=not ctx.quick)
+    gap_stream(ctx, found, tmp)
+    membership_stream(ctx, found, tmp)
     # random histories: normalising alphabet, then with the raw primitives too
     n = 120 if ctx.quick else 1500
     for raw_ok in (False, True):
